@@ -58,6 +58,11 @@ class NodeParser(PushParser):
             result = handler.parse(source, ns_map)
         except SyntaxError as e:
             raise ParserError(e)
+        except LookupError as e:
+            # codecs.lookup: unknown encoding name in the xml declaration
+            if type(e) is LookupError:
+                raise ParserError(e)
+            raise
 
         if result is not None:
             return result
